@@ -178,6 +178,9 @@ where
   /// - `Err(RecvError::Disconnected)`: Returned if the `TopicSender` is dropped
   ///   and all messages in this receiver's mailbox have been consumed.
   pub fn recv(&self) -> Result<(K, T), RecvError> {
+    if self.closed.load(Ordering::Relaxed) {
+      return Err(RecvError::Disconnected);
+    }
     self.consumer.recv_sync()
   }
 
@@ -191,6 +194,9 @@ where
   /// - `Err(TryRecvError::Disconnected)`: The sender has been dropped and the
   ///   mailbox is empty.
   pub fn try_recv(&self) -> Result<(K, T), TryRecvError> {
+    if self.closed.load(Ordering::Relaxed) {
+      return Err(TryRecvError::Disconnected);
+    }
     self.consumer.try_recv()
   }
 
@@ -202,10 +208,7 @@ where
   /// - `Err(RecvErrorTimeout::Disconnected)` if the channel is disconnected.
   pub fn recv_timeout(&self, timeout: Duration) -> Result<(K, T), RecvErrorTimeout> {
     if self.closed.load(Ordering::Relaxed) {
-      return self
-        .consumer
-        .try_recv()
-        .map_err(|_| RecvErrorTimeout::Disconnected);
+      return Err(RecvErrorTimeout::Disconnected);
     }
     self.consumer.recv_timeout_sync(timeout)
   }
@@ -329,13 +332,14 @@ where
     let consumer = unsafe { std::ptr::read(&self.consumer) };
     let producer_mailbox = unsafe { std::ptr::read(&self.producer_mailbox) };
     let subscriptions = unsafe { std::ptr::read(&self.subscriptions) };
+    let closed = self.closed.load(Ordering::Relaxed);
     mem::forget(self);
     AsyncTopicReceiver {
       dispatcher,
       consumer,
       producer_mailbox,
       subscriptions,
-      closed: AtomicBool::new(false),
+      closed: AtomicBool::new(closed),
     }
   }
 }
